@@ -1330,6 +1330,7 @@ size_t ZSTDMT_initCStream_internal(
     mtctx->inBuff.prefix = kNullRange;
     mtctx->doneJobID = 0;
     mtctx->nextJobID = 0;
+    mtctx->jobReady = 0;
     mtctx->frameEnded = 0;
     mtctx->allJobsCompleted = 0;
     mtctx->consumed = 0;
